@@ -2,6 +2,7 @@
 package c13
 
 import (
+	"strings"
 	"fmt"
 	"reflect"
 	"time"
@@ -31,6 +32,45 @@ func schemas(tier string) []univ.SNode {
 	return s
 }
 
+var otherZones = []*time.Location{time.FixedZone("west", -5*3600), time.FixedZone("east", 14*3600), time.FixedZone("half", -(3*3600 + 1800))}
+
+// relocate replaces every time.Time inside v (addressable) by the same instant in loc; false if there is none.
+func relocate(v reflect.Value, loc *time.Location) bool {
+	found := false
+	var walk func(v reflect.Value)
+	walk = func(v reflect.Value) {
+		switch {
+		case v.Type() == gv.TimeT:
+			if v.CanSet() {
+				t := v.Interface().(time.Time)
+				if !t.IsZero() {
+					v.Set(reflect.ValueOf(t.In(loc)))
+					found = true
+				}
+			}
+			return
+		}
+		switch v.Kind() {
+		case reflect.Ptr:
+			if !v.IsNil() {
+				walk(v.Elem())
+			}
+		case reflect.Struct:
+			for i := 0; i < v.NumField(); i++ {
+				if v.Type().Field(i).IsExported() {
+					walk(v.Field(i))
+				}
+			}
+		case reflect.Slice:
+			for i := 0; i < v.Len(); i++ {
+				walk(v.Index(i))
+			}
+		}
+	}
+	walk(v)
+	return found
+}
+
 func build(schemaJSON string, item interface{}) (c avro.Codec, err error, pan interface{}, site string) {
 	defer func() {
 		if r := recover(); r != nil {
@@ -45,7 +85,58 @@ func build(schemaJSON string, item interface{}) (c avro.Codec, err error, pan in
 	return
 }
 
+// Embedded structs under a caller schema: an embedded struct is an ordinary field named after its type, and its own
+// fields live in the nested record — also when one of them carries the same schema name as a field of the outer
+// struct (fields are matched per record, by name).
+type EmbMeta struct {
+	ID  int64  `json:"id"`
+	Src string `json:"src"`
+}
+
+type EmbOuter struct {
+	Pad     int64 `json:"pad"`
+	EventID int64 `json:"id"`
+	EmbMeta
+	Tail int64 `json:"tail"`
+}
+
+func runEmbeddedCollision(c *fw.Ctx) {
+	const doc = `{"type":"record","name":"o","fields":[{"name":"pad","type":"long"},{"name":"id","type":"long"},{"name":"EmbMeta","type":{"type":"record","name":"m","fields":[{"name":"id","type":"long"},{"name":"src","type":"string"}]}},{"name":"tail","type":"long"}]}`
+	locus := "embedded-struct|same-schema-name-inside"
+	c.Eval(1)
+	c.Begin(locus, doc)
+	codec, err, pan, site := build(doc, EmbOuter{})
+	if pan != nil {
+		c.Violation("panic:"+fw.PanicClass(pan)+"@"+site+"|build|"+locus, fmt.Sprint(pan), doc)
+		return
+	}
+	if err != nil {
+		c.Count("codec_refused", 1)
+		return
+	}
+	c.Nontrivial(locus)
+	v := EmbOuter{Pad: 7, EventID: 1001, EmbMeta: EmbMeta{ID: 55, Src: "n"}, Tail: -3}
+	want := ref.AppendLong(ref.AppendLong(nil, 7), 1001)
+	want = append(ref.AppendLong(ref.AppendLong(want, 55), 1), 'n')
+	want = ref.AppendLong(want, -3)
+	c.Guard(locus, doc, doc, func() {
+		w := avro.NewWriteBuf(nil)
+		codec.Write(w, unsafe.Pointer(&v))
+		if string(w.Bytes()) != string(want) {
+			c.Violation("wrong-datum|"+locus, fmt.Sprintf("written %x, the value means %x", w.Bytes(), want), doc)
+			return
+		}
+		var back EmbOuter
+		if err := codec.Read(avro.NewReadBuf(want), unsafe.Pointer(&back)); err != nil || back != v {
+			c.Violation("not-inverted|"+locus, fmt.Sprintf("Read(Write(v)) = %+v err=%v, v = %+v", back, err, v), doc)
+		}
+	})
+}
+
 func runNode(c *fw.Ctx, idx int, n univ.SNode) {
+	if idx == 0 {
+		runEmbeddedCollision(c)
+	}
 	rs := ref.Record("Top", ref.F("f", n.Schema))
 	schemaJSON := rs.Print(nil)
 	full := n.Depth <= 1
@@ -105,6 +196,29 @@ func runNode(c *fw.Ctx, idx int, n univ.SNode) {
 					if e2 != nil || !alt.Equal(got) {
 						c.Violation("wrong-datum|"+locus+"|"+dl+"|"+vc, fmt.Sprintf("Write produced %x = %s, the value means %s (difference at %s) — %s", out, got, want, path, vdesc), det)
 						continue
+					}
+				}
+				// the same instants carried in other Locations (a time.Time is an instant plus a zone for display):
+				// what is written depends on the instant alone
+				for _, loc := range otherZones {
+					if strings.Contains(n.Chain, "string") {
+						break // RFC 3339 text carries the zone: different text for the same instant is right
+					}
+					v2 := gv.DeepCopy(v)
+					if !relocate(v2, loc) {
+						break
+					}
+					var out2 []byte
+					if c.Guard(locus+"|write", vdesc, det, func() {
+						w := avro.NewWriteBuf(nil)
+						codec.Write(w, unsafe.Pointer(v2.UnsafeAddr()))
+						out2 = w.Bytes()
+					}) {
+						break
+					}
+					if string(out2) != string(out) {
+						c.Violation("wrong-datum|"+locus+"|depends-on-location|"+vc, fmt.Sprintf("the same instant in zone %s is written as %x, in UTC as %x — %s", loc, out2, out, vdesc), det)
+						break
 					}
 				}
 				// inversion: Read of those bytes returns the original value
@@ -215,7 +329,7 @@ func init() {
 			if tier == "thorough" {
 				d = 3
 			}
-			return fmt.Sprintf("caller-written schemas record{f: S} for every S of nesting depth <=%d over leaves {boolean,int,long,float,double,bytes,string,fixed(4),record,date,timestamp-millis,timestamp-micros,RFC3339 string} and constructors {array,map,record{x},[null,S],[S,null]} × every compatible Go field type (int/int16/int32/int64, float32/float64, *T, **T, null.* wrappers, time.Time, [n]byte, slices/maps/structs of these) × tag {plain, omitempty} × the value alphabet of the schema restricted to the target's range; oracle: if Schema.Codec builds, the reference decoder reads Write's bytes, with nothing left over, as the datum gv.ToDatum assigns to the value (union branch, width, logical unit), and Codec.Read of the bytes returns the value; plus, for fixed, Go byte arrays of other lengths (size±1, +4, ×2; by value and behind a pointer): a refusal is fine, a codec that is built must invert a value with no zero byte; non-trivial = a distinct (schema, type, value) for which a codec was built", d)
+			return fmt.Sprintf("caller-written schemas record{f: S} for every S of nesting depth <=%d over leaves {boolean,int,long,float,double,bytes,string,fixed(4),record,date,timestamp-millis,timestamp-micros,RFC3339 string} and constructors {array,map,record{x},[null,S],[S,null]} × every compatible Go field type (int/int16/int32/int64, float32/float64, *T, **T, null.* wrappers, time.Time, [n]byte, slices/maps/structs of these) × tag {plain, omitempty} × the value alphabet of the schema restricted to the target's range; (time.Time values also in three non-UTC Locations: under the integer-carried logical types the bytes must depend on the instant alone) oracle: if Schema.Codec builds, the reference decoder reads Write's bytes, with nothing left over, as the datum gv.ToDatum assigns to the value (union branch, width, logical unit), and Codec.Read of the bytes returns the value; plus an embedded struct one of whose fields carries the same schema name as a field of the outer struct; plus, for fixed, Go byte arrays of other lengths (size±1, +4, ×2; by value and behind a pointer): a refusal is fine, a codec that is built must invert a value with no zero byte; non-trivial = a distinct (schema, type, value) for which a codec was built", d)
 		},
 		Assumptions: []string{
 			"only unions of null with one other type (either order) are in scope for writing; multi-branch and single-branch unions are excluded (the statement lists null first or second)",
